@@ -104,6 +104,7 @@ pub fn alphabet(u: Universe, contents: &[&[u8]], append_cap: usize, composites: 
         append_cap,
         composites,
         observers: false,
+        setters: false,
     }
 }
 
